@@ -32,7 +32,8 @@ REQUIRED = {'domain': 500, 'budget': 500, 'prefix': 500, 'stop-m-iff': 500,
 REQUIRED_EVENTS = {'interrupt-ltr-first': 5, 'interrupt-ltr-middle': 5,
     'interrupt-ltr-last': 5, 'interrupt-rtl-first': 5,
     'interrupt-rtl-middle': 5, 'interrupt-rtl-last': 5,
-    'interrupt-by-budget': 50, 'interrupt-by-none': 50}
+    'interrupt-by-budget': 50, 'interrupt-by-none': 50,
+    'large-request-rows': 10}
 ASSUMPTIONS = ['determinism of cross: a faulty run coincides with the '
     'reference run up to the interruption (checked, not assumed: prefix rule)',
     'objective = dense table lookup']
@@ -56,6 +57,9 @@ def gen_cases(seed, tier):
     for j in range(60 if q else 1200):
         out.append({'seed': int(rng.integers(1 << 62)), 'cache': j % 3 != 2,
             'vld': False, 'd': 2 + j % 3, 'zero_slices': True})
+    for j in range(28 if q else 400):
+        out.append({'kind': 'bigrequest', 'seed': int(rng.integers(1 << 62)),
+            'cache': bool(j % 2), 'd': 2 + j % 2})
     return out
 
 
@@ -170,7 +174,60 @@ def judge_common(ctx, run, n, kw, label):
     return True
 
 
+def run_bigrequest(case, ctx):
+    """Single requests of several thousand multi-indices (mode sizes 26..36,
+    start ranks 11..16: r n r = 3000..20000 rows per request): the counters
+    and the stop contract at every None-returning call and at budgets placed
+    inside such a request, with and without a cache."""
+    rng = np.random.default_rng(case['seed'])
+    d = case['d']
+    n = [int(rng.integers(26, 37)) for _ in range(d)]
+    Tt, rt, T = crossh.make_target(rng, n, int(rng.integers(1, 3)))
+    r0s = int(rng.integers(11, 17))
+    Y0 = crossh.start_tensor(rng, n, [1] + [r0s] * (d - 1) + [1])
+    base = dict(dr_min=0, dr_max=int(rng.integers(0, 2)))
+
+    def go(none_at=None, **kw):
+        full = dict(base)
+        full.update(kw)
+        if case['cache']:
+            full['cache'] = {}
+        return crossh.execute(crossh.Run(T, none_at, None), Y0, **full), full
+
+    refrun, kwr = go(nswp=1)
+    if not judge_common(ctx, refrun, n, kwr, 'reference (large requests)'):
+        return
+    sizes = [len(b) for b in refrun.batches]
+    K, M = len(sizes), int(sum(sizes))
+    ctx.event('large-request-rows', max(sizes))
+    for k in range(1, K + 1):
+        run, kw = go(none_at=k, nswp=1)
+        label = f'None at call {k} (requests of up to {max(sizes)} rows)'
+        if not judge_common(ctx, run, n, kw, label):
+            continue
+        ctx.check('prefix', same_batches(run.batches, refrun.batches[:k - 1]),
+            f'{label}: batches before the None differ from the reference')
+        ctx.check('none-stop', run.info['stop'] == 'func',
+            f'{label}: stop = {run.info["stop"]!r}, expected "func"')
+    cum = np.cumsum(sizes)
+    for m in sorted({int(x) for x in rng.integers(1, M + 1, size=4)} |
+            {int(cum[0]) - 1, int(cum[0]), int(cum[-1])}):
+        if m < 1:
+            continue
+        run, kw = go(nswp=1, m=m)
+        label = f'budget m={m} (requests of up to {max(sizes)} rows)'
+        if not judge_common(ctx, run, n, kw, label):
+            continue
+        j = int(np.searchsorted(cum, m, side='right'))
+        ctx.check('prefix', same_batches(run.batches, refrun.batches[:j]),
+            f'{label}: evaluated batches are not the reference prefix of '
+            f'length {j}')
+    ctx.nontrivial(['bigrequest', n, r0s, case['cache']])
+
+
 def run_case(case, ctx):
+    if case.get('kind') == 'bigrequest':
+        return run_bigrequest(case, ctx)
     rng = np.random.default_rng(case['seed'])
     d = case['d']
     n = [int(rng.integers(1, 6)) for _ in range(d)]
